@@ -2237,6 +2237,22 @@ fn sscli__new_payload_codec<const N: usize>(addr: &Address, config: ClientContex
         Ok(sscli__PayloadCodec::new(config.0, Mode::Client, Some(addr.clone())))
     }
 
+//@@ octo-squirrel-client/src/client/shadowsocks.rs:123-136  mod udp / fn new_plain_outbound  sha=ab722790d4dfa290
+fn ssucli__new_plain_outbound<'a, const N: usize>(
+        verif_arg1: &Address,
+        client: &Client<'a, N>,
+    ) -> anyhow::Result<UdpFramed<DatagramPacketCodec<'a, N>>> {
+        let outbound = UdpSocket::bind(SocketAddrV4::new(verif_ipv4_unspecified(), 0))?;
+        let outbound_framed = UdpFramed::new(
+            outbound,
+            DatagramPacketCodec::new(udp__SessionCodec::new(
+                udp__Context::new(Mode::Client, None, client.key, client.identity_keys),
+                udp__AEADCipherCodec::new(client.kind),
+            )),
+        );
+        Ok(outbound_framed)
+    }
+
 //@@ octo-squirrel-client/src/client.rs:42-72  fn transfer_tcp  sha=053e21b3dd8afc4c
 fn transfer_tcp(listener: TcpListener, current: ServerConfig<SslConfig>) {
     match current.protocol {
